@@ -2174,7 +2174,7 @@ pub fn c18() -> CheckDef {
             what: "1-5 spoofable addresses that never return a nonce: valid 1472-byte SYNs (repeated, same or fresh nonce), undersized CRC-valid SYNs (length swept over 5..1471 across runs), wrong-version, configuration-refused and capacity-refused SYNs, stray frames of every other type, bursts of 80-400 small stray frames of one type right after a valid SYN, 'promote me' attempts (a SYN with a self-chosen nonce followed by data / ack / sync frames numbered with it), an attacker that extrapolates the server's next nonce from the two its own addresses were handed and acknowledges in the name of a third address, a server application that sends 20 kB to every address it believes connected every few seconds, gaps up to 25 s (beyond the handshake timeout); servers with and without free capacity; the violation is the payload-byte balance, the balance with 28 header bytes per datagram is reported as a measurement" }],
         panic_is_violation: no_panics,
         hang_is_violation: false,
-        quick_runs: 10000,
+        quick_runs: 10_600,
         thorough_runs: 60_000,
         rule: "one case = one simulated run; distinct = distinct run digest; non-trivial = at least one datagram from an unverified address reached the server",
         real_code: REAL_B,
@@ -2240,7 +2240,7 @@ pub fn c10() -> CheckDef {
         ],
         panic_is_violation: no_panics,
         hang_is_violation: false,
-        quick_runs: 3000,
+        quick_runs: 4000,
         thorough_runs: 35_000,
         rule: "one case = one simulated run; k lost handshake frames = (run index / 2) mod 11; distinct = distinct run digest; non-trivial = at least 10 steps of an established connection were checked for promptness, or a retry budget was evaluated",
         real_code: REAL_B,
